@@ -21,5 +21,19 @@ def configs(tier):
     return out
 
 
+def init_configs():
+    out = []
+    for layout in ("dense", "isotropic", "blockdiag"):
+        out.append((ivp.Cfg(layout, "none", "filter", "ts0", q=1, d=2), True))
+        out.append((ivp.Cfg(layout, "none", "filter", "ts1", q=2, d=1), True))
+        out.append((ivp.Cfg(layout, "mle", "filter", "ts0", q=1, d=2), True))
+        out.append((ivp.Cfg(layout, "mle", "filter", "ts1", q=1, d=1), False))
+        out.append((ivp.Cfg(layout, "dynamic", "filter", "ts1", q=1, d=2), True))
+        out.append((ivp.Cfg(layout, "dynamic", "filter", "ts0", q=1, d=1), False))
+        out.append((ivp.Cfg(layout, "none", "fixedinterval", "ts0", q=1, d=1), True))
+        out.append((ivp.Cfg(layout, "none", "fixedpoint", "ts0", q=1, d=1), False))
+    return out
+
+
 def contracts():
-    return [solvers.step_contract(c) for c in configs("thorough")]
+    return [solvers.step_contract(c) for c in configs("thorough")] + [solvers.init_contract(c, w) for c, w in init_configs()]
